@@ -216,6 +216,55 @@ def inline_helpers(fn, methods, max_stmts=8):
             return None
         return body
 
+    def procedure_call(st):
+        """`self.h(args)` as a whole statement, h a same-class method without any `return <value>` / yield (a procedure, any control flow,
+        at most 3 * max_stmts nodes of statements): the statements of h with parameters substituted and locals suffixed; else None."""
+        if not (isinstance(st, ast.Expr) and isinstance(st.value, ast.Call)):
+            return None
+        c = st.value
+        if not (isinstance(c.func, ast.Attribute) and isinstance(c.func.value, ast.Name) and c.func.value.id == "self" and c.func.attr in methods
+                and methods[c.func.attr] is not fn and not c.keywords and not any(isinstance(a, ast.Starred) for a in c.args)):
+            return None
+        h = methods[c.func.attr]
+        if h.args.vararg or h.args.kwarg or h.args.kwonlyargs or h.args.defaults:
+            return None
+        params = [a.arg for a in h.args.args[1:]]
+        if len(params) != len(c.args):
+            return None
+        body = [s_ for s_ in h.body if not (isinstance(s_, ast.Expr) and isinstance(s_.value, ast.Constant))]
+        if body and isinstance(body[-1], ast.Return) and body[-1].value is None:
+            body = body[:-1]
+        nodes = [x for s_ in body for x in ast.walk(s_)]
+        if not body or sum(1 for x in nodes if isinstance(x, ast.stmt)) > 3 * max_stmts or \
+                any(isinstance(x, (ast.Return, ast.Yield, ast.YieldFrom, ast.Lambda, ast.FunctionDef, ast.Global, ast.Nonlocal)) for x in nodes):
+            return None
+        # arguments must be simple (names / access paths / constants): they are substituted textually
+        if not all(isinstance(a, ast.Constant) or _paths_ok(a) for a in c.args):
+            return None
+        stored_params = set(x.id for x in nodes if isinstance(x, ast.Name) and isinstance(x.ctx, (ast.Store, ast.Del)) and x.id in params)
+        if stored_params:
+            return None
+        counter[0] += 1
+        suf = "_h%d" % counter[0]
+        hlocals = set(x.id for x in nodes if isinstance(x, ast.Name) and isinstance(x.ctx, (ast.Store, ast.Del)))
+        sub = dict(zip(params, c.args))
+
+        class S(ast.NodeTransformer):
+            def visit_Name(self, n):
+                if n.id in sub and isinstance(n.ctx, ast.Load):
+                    return clone(sub[n.id])
+                if n.id in hlocals:
+                    return ast.copy_location(ast.Name(id=n.id + suf, ctx=n.ctx), n)
+                return n
+        res = []
+        for s_ in body:
+            t_ = S().visit(clone(s_))
+            for x in ast.walk(t_):
+                if hasattr(x, "lineno"):
+                    x.lineno = getattr(st, "lineno", x.lineno)
+            res.append(t_)
+        return res
+
     def expand_block(stmts):
         out = []
         for st in stmts:
@@ -225,6 +274,10 @@ def inline_helpers(fn, methods, max_stmts=8):
                     setattr(st, fld, expand_block(b))
             for h in getattr(st, "handlers", []) or []:
                 h.body = expand_block(h.body)
+            proc = procedure_call(st)
+            if proc is not None:
+                out.extend(proc)
+                continue
             if isinstance(st, (ast.Expr, ast.Assign, ast.AugAssign, ast.Return)):
                 calls = [c for c in ast.walk(st) if isinstance(c, ast.Call) and isinstance(c.func, ast.Attribute) and isinstance(c.func.value, ast.Name)
                          and c.func.value.id == "self" and c.func.attr in methods and methods[c.func.attr] is not fn and not c.keywords
